@@ -90,6 +90,8 @@ def check_z3(obl, rlimit, timeout_ms=60000, assumptions=None):
 
 
 def check_cvc5(obl, timeout_s=30):
+    if os.environ.get('PYVC_NO_CVC5'):
+        return 'unknown', 0.0
     smt = obl.smt2()
     smt = '(set-logic ALL)\n' + smt
     with tempfile.NamedTemporaryFile('w', suffix='.smt2', delete=False, dir=os.environ.get('PYVC_TMP', None)) as f:
